@@ -890,7 +890,9 @@ _ALL_FWD = _CB_FWD + [(VQ, f'{_VQc}.forward'), (VQ, f'{_VQc}.maybe_split_heads_f
     [(FSQF, 'FSQ.forward'), (LFQF, 'LFQ.forward'), (SIMVQ, 'SimVQ.forward'), (LQ, 'LatentQuantize.forward'), (LQ, 'LatentQuantize.quantize'), (RPQ, 'RandomProjectionQuantizer.forward')]
 FOOTPRINT = {
     'C01': [(VQ, 'cdist'), (VQ, 'l2norm'), (VQ, 'gumbel_sample')] + _CB_FWD + [(VQ, f'{_VQc}.forward'), (VQ, f'{_VQc}.maybe_split_heads_from_input'), (SIMVQ, 'SimVQ.forward'),
-            (LQ, 'LatentQuantize.quantize'), (RPQ, 'RandomProjectionQuantizer.forward'), (RVQ, 'ResidualVQ.forward'), (RVQ, 'MLP.forward'), (RSVQ, 'ResidualSimVQ.forward')],
+            (LQ, 'LatentQuantize.quantize'), (RPQ, 'RandomProjectionQuantizer.forward'), (RVQ, 'ResidualVQ.forward'), (RVQ, 'MLP.forward'), (RSVQ, 'ResidualSimVQ.forward'),
+            # the cosine ranking is the dot product: every writer of a cosine codebook must keep its codes on the unit sphere (seed C01-e)
+            (VQ, f'{_CO}.replace'), (VQ, f'{_CO}.expire_codes_'), (VQ, f'{_CO}.update_ema'), (VQ, f'{_CO}.init_embed_'), (VQ, f'{_VQc}.expire_codes_'), (SIMVQ, 'SimVQ.codebook')],
     'C02': _DECODE + _ALL_FWD,
     'C03': [(VQ, 'ema_inplace'), (VQ, 'laplace_smoothing'), (VQ, f'{_EU}.update_ema'), (VQ, f'{_CO}.update_ema'), (RVQ, 'ResidualVQ.forward')] + _CB_FWD,
     'C04': [(FSQF, n) for n in ('round_ste', 'floor_ste', 'FSQ.__init__', 'FSQ.bound', 'FSQ.symmetry_preserving_bound', 'FSQ.quantize', 'FSQ._scale_and_shift', 'FSQ._scale_and_shift_inverse',
@@ -907,7 +909,8 @@ FOOTPRINT = {
     'C09': [(VQ, 'lens_to_mask'), (VQ, f'{_EU}.init_embed_'), (VQ, f'{_CO}.init_embed_'), (VQ, f'{_EU}.expire_codes_'), (VQ, f'{_CO}.expire_codes_'), (VQ, f'{_VQc}.forward'),
             (RVQ, 'ResidualVQ.forward'), (RVQ, 'GroupedResidualVQ.forward'), (LFQF, 'LFQ.forward'), (RLFQ, 'ResidualLFQ.forward')] + _CB_FWD,
     'C10': [(VQ, f'{_VQc}.forward'), (VQ, f'{_VQc}.maybe_split_heads_from_input'), (VQ, 'safe_div'), (VQ, 'rotate_to'), (VQ, 'efficient_rotation_trick_transform'), (FSQF, 'FSQ.forward'),
-            (LFQF, 'LFQ.forward'), (SIMVQ, 'SimVQ.forward'), (SIMVQ, 'pack_one'), (LQ, 'LatentQuantize.forward'), (RFSQ, 'ResidualFSQ.forward'), (RSVQ, 'ResidualSimVQ.forward')] + _CB_FWD,
+            (LFQF, 'LFQ.forward'), (SIMVQ, 'SimVQ.forward'), (SIMVQ, 'pack_one'), (LQ, 'LatentQuantize.forward'), (RFSQ, 'ResidualFSQ.forward'), (RSVQ, 'ResidualSimVQ.forward'), (RVQ, 'ResidualVQ.forward'), (RVQ, 'GroupedResidualVQ.forward'),
+            (RLFQ, 'ResidualLFQ.forward'), (RVQ, 'MLP.forward'), (RPQ, 'RandomProjectionQuantizer.forward')] + _CB_FWD,
     'C11': [(VQ, f'{_EU}.replace'), (VQ, f'{_EU}.expire_codes_'), (VQ, f'{_CO}.replace'), (VQ, f'{_CO}.expire_codes_'), (VQ, f'{_VQc}.expire_codes_'), (RVQ, 'ResidualVQ.forward')] + _SAMPLE + _CB_FWD,
     'C12': _SEEDS + _RES_FWD + _GRP_FWD,
     'C13': _ALL_FWD + [(VQ, 'rotate_to'), (VQ, 'lens_to_mask'), (SIMVQ, 'pack_one'), (RSVQ, 'ResidualSimVQ.get_codes_from_indices')],
